@@ -457,5 +457,5 @@ pub fn run(ctx: &Ctx) {
         })
     }, false, true);
     // (ii)+(iii) random subsets incl. time/timestamp/offset, corrupted and independent values
-    ctx.run_prop(&Resolve, ctx.n(5_000_000, 100_000_000));
+    ctx.run_prop(&Resolve, ctx.n(5_000_000, 300_000_000));
 }
